@@ -321,7 +321,7 @@ class NetConfig:
         self.high_water = 64 * 1024
         self.send_delay = 0.0  # coalescing delay before the first segment leaves
         self.resolve_delay = (0.0, 0.0)  # host-name resolution (non-literal hosts)
-        self.accept_delay = (0.0, 0.001)
+        self.accept_delay = (0.0, 0.0)  # extra jitter on top of the two handshake latencies
 
 
 class Listener:
@@ -513,11 +513,17 @@ class SimNet:
             return
         conn.listener = lst
         conn.server_label = lst.label
-        # kernel completes the handshake: SYN-ACK goes back, the accept callback of the
-        # server application runs some time later (independent delays).
+        # The kernel completes the handshake: the SYN-ACK travels back (client "connected"
+        # after one more latency) and the client's ACK travels forth; only then is the
+        # connection in the accept queue, and a single-threaded event loop serves a ready
+        # listener in the very next iteration.  So the accept happens two latencies after the
+        # SYN arrived (plus an optional small jitter), never arbitrarily later: an accept
+        # delayed past several later round trips on another socket cannot happen on a real loop.
         lo, hi = self.cfg.accept_delay
-        d_acc = lo if hi <= lo else self.rng.uniform(lo, hi)
-        loop.call_at(loop._vtime + self._lat(), self._event, "connected", conn, "c", 0, lambda: self._client_connected(conn))
+        jitter = lo if hi <= lo else self.rng.uniform(lo, hi)
+        lat_synack = self._lat()
+        d_acc = lat_synack + self._lat() + jitter
+        loop.call_at(loop._vtime + lat_synack, self._event, "connected", conn, "c", 0, lambda: self._client_connected(conn))
         loop.call_at(loop._vtime + d_acc, self._event, "accept", conn, "s", 0, lambda: self._accept(conn))
 
     def _client_connected(self, conn):
